@@ -71,12 +71,12 @@ def case_single(rec, case):
     key = ks.pick(r, alg, mismatch=mismatch)
     kid = r.choice(signing.KIDS)
     route = sign_route(r, rec.tier)
-    src, dst = drive.fresh(wd, ".suit"), drive.fresh(wd, ".suit")
+    src, dst = drive.fresh(wd, ".suit"), drive.fresh_out(wd, ".suit")
     with open(src, "wb") as fh:
         fh.write(inp)
     with effects.watch() as w:
         out = signing.sign_file(src, dst, key.name, kid, alg, ks.dir, action, route, wd)
-    wrote = os.path.exists(dst)
+    wrote = drive.written(dst)
     cls = f"single:{action}/{'signed' if presigned else 'unsigned'}/{'mismatch' if mismatch else 'match'}"
     rec.count(cls)
     rec.count("alg:" + alg)
@@ -296,8 +296,19 @@ def case_recursive(rec, case):
     else:
         cfg["sign-script"] = signing.SIGN_SCRIPT
         cfg["kms-script"] = signing.KMS_SCRIPT
+        if r.random() < 0.4:
+            # the configuration names the scripts; the environment ALSO exports script variables - pointing at decoys
+            # that refuse to work. Scripts named by the configuration (and inherited by the dependencies) win.
+            decoy = os.path.join(wd, "decoy_script.py")
+            if not os.path.exists(decoy):
+                with open(decoy, "w") as fh:
+                    fh.write("raise RuntimeError('decoy script from the environment was loaded')\n")
+            env_extra = {r.choice(["NCS_SUIT_SIGN_SCRIPT", "NCS_SUIT_KMS_SCRIPT"]): decoy}
+            if r.random() < 0.5:
+                env_extra = {"NCS_SUIT_SIGN_SCRIPT": decoy, "NCS_SUIT_KMS_SCRIPT": decoy}
+            rec.count("recursive:decoy-scripts-in-the-environment")
     cfg["context"] = ks.dir
-    src, dst, cf = drive.fresh(wd, ".suit"), drive.fresh(wd, ".suit"), drive.fresh(wd, ".json")
+    src, dst, cf = drive.fresh(wd, ".suit"), drive.fresh_out(wd, ".suit"), drive.fresh(wd, ".json")
     with open(src, "wb") as fh:
         fh.write(root.bytes)
     with open(cf, "w") as fh:
@@ -364,7 +375,7 @@ def case_recursive(rec, case):
             if exc is None:
                 rec.violation("recursive-not-refused:" + state["failed"],
                               f"configuration with {state['failed']} was accepted", full)
-            elif os.path.exists(dst):
+            elif drive.written(dst):
                 rec.violation("recursive-output-written-on-failure", f"{state['failed']}: failed but an output file "
                               "exists", full)
             return
